@@ -8,7 +8,8 @@ if [ "$1" = "-R" ]; then rev="-R"; shift; fi
 [ "$1" = "--" ] && shift
 if ! git -C /repo diff --quiet; then echo "refusing: /repo has uncommitted changes" >&2; exit 2; fi
 git -C /repo apply $rev "$patch" || { echo "patch does not apply" >&2; exit 2; }
-trap 'git -C /repo checkout -- . ' EXIT INT TERM
+# restore the tree and the simulator binary built from it
+trap 'git -C /repo checkout -- . ; (cd /verif/sim && cargo build --release --offline -q 2>/dev/null)' EXIT INT TERM
 for id in "$@"; do
   out=$(/verif/check "$id" quick 2>&1); code=$?
   echo "== $id exit=$code"
